@@ -265,3 +265,25 @@ check('C07', 'E1', 'model_checking',
       'one FIFO log with a cursor per host models the broker; session ids '
       'and ack-id values are normalised; delayed mode is depth-bounded.',
       'DESIGN.md 6/C07')
+
+check('C15', 'E4/fault', 'fault_enumeration',
+      'exhaustive channel-message and fault enumeration through the real '
+      'listener loop, sentinel oracle',
+      'About 1500 channel items (for each of 7 method names every subset of '
+      'its fields, every field with each of 8 wrong-typed values, surplus '
+      'fields, own-host echoes, callback messages for other hosts / unknown '
+      'ids / id 0, malformed callback tuples, non-dict values - each as '
+      'pickle, JSON and dict - plus undecodable raw items) are fed, singly '
+      'and as all ordered pairs of representatives, to the real _thread() '
+      'of PubSubManager and AsyncPubSubManager followed by a valid sentinel '
+      'emit that must reach a local client; an own-host echo must change '
+      'nothing; a foreign acknowledgement must complete no local callback. '
+      'Faults: disconnect handler / transport send / application callback '
+      'raise; the listen iterator raises at positions 0-2 and is restarted. '
+      'RedisManager and AsyncRedisManager run over a fake redis module with '
+      'every failure/success word up to length 4 (8 thorough) at connect or '
+      'subscribe, checking delivery after recovery and the 1,2,4..60 '
+      'back-off with reset, and publish giving up quietly after one retry.',
+      'fake redis module; sleeps are seams; Kombu/Kafka/ZeroMQ/aio-pika '
+      'backends need libraries that are not installed.',
+      'DESIGN.md 6/C15')
